@@ -789,3 +789,139 @@ def wbs_init_unit():
         return Engine('pjplan/wbs.py', 'WBS.__init__', contracts, TASK_CLASSES, fc, plugins=[WPlugin()]), LIST_AX + GRAPH_AX + KID_AX + ROOT_AX
     return Unit('WBS.__init__', 'pjplan/wbs.py', build, ['C01', 'C05', 'C11'], timeout_ms=15000)
 UNITS += [wbs_init_unit()]
+
+
+# ================================================================================================ WBS.remove_all
+cov = Function('below_one_of_the_first', LT.z, PAR, IntSort(), T.z, BoolSort())          # cov(SEL, par0, i, x): x is one of the first i selected tasks or lies below one (in the heap the call started with)
+_sel = Const('_sel', LT.z); _ci = Int('_ci')
+COV_AX = [ForAll([_sel, pm, x], Not(cov(_sel, pm, 0, x)), patterns=[cov(_sel, pm, 0, x)]),
+          ForAll([_sel, pm, _ci, x], Implies(_ci >= 0, cov(_sel, pm, _ci + 1, x) == Or(cov(_sel, pm, _ci, x), insub(pm, at(_sel, _ci), x))), patterns=[cov(_sel, pm, _ci + 1, x)])]
+
+
+def wbs_remove_all_unit():
+    def build():
+        hc = lambda c: H(c.eng, c.st); h0 = lambda c: H(c.eng, c.pre); root = lambda c: h0(c).root[c['self']]
+        SEL = lambda c: c.st.ghost.get('selection', c.pre.ghost.get('selection'))
+        member = lambda h, c, t: Desc(h.par, root(c), t)
+
+        def c_query(eng, st, recv, args, kws, node):
+            """self.tasks(key, **kwargs): contract of WBS.tasks + _ImmutableTaskList.__call__ (both proved): a selection of members, each once, in listing order"""
+            h = H(eng, st); me = st.env['self'].e; S_ = fresh('selection', LT); ii = Int('ii')
+            st.assume(And(ln(S_) >= 0, nodup(S_), ForAll([x], Implies(mem(S_, x), And(x != null, Desc(h.par, h.root[me], x))), patterns=[mem(S_, x)]),
+                          ForAll([ii], Implies(And(0 <= ii, ii < ln(S_)), mem(S_, at(S_, ii))), patterns=[at(S_, ii)])))
+            st.ghost['selection'] = S_
+            return [(st, V(S_, LT))]
+
+        def c_remove(eng, st, recv, args, kws, node):
+            g = H(eng, st); task, cur = args[0].e, args[1].e
+            for lab, f in Inv(g).items():
+                if lab != U1: st.oblige(f'req@__remove/{lab}', f, f'@{node.lineno}')
+            st.oblige('req@__remove/start-task-non-null', cur != null, f'@{node.lineno}')
+            below = And(task != null, Desc(g.par, cur, task))
+            no = st.fork(Not(below)); yes = st.fork(below); rej = st.fork(below)
+            for s2 in (yes, rej):
+                for k in ('Task._Task__parent', 'Task._Task__wbs', 'PyList.elems'): eng.havoc(s2, k)
+            rej.ghost['attach_rejected'] = BoolVal(True)
+            h = H(eng, yes)
+            for lab, f in Inv(h).items():
+                if lab != U1: yes.assume(f)
+            yes.assume(removal_effect(h, g, g.par[task], task)); yes.assume(h.par == Store(g.par, task, null))
+            return [(no, V(BoolVal(False), BOOL)), (yes, V(BoolVal(True), BOOL)), (rej, Raise('RuntimeError'))]
+
+        class RPlugin(ChildrenPlugin):
+            def truth(self_, eng, st, v):
+                if v.s == LT: return ln(v.e) > 0
+                return NotImplemented
+
+            def call(self_, eng, e, st):
+                f = e.func
+                if isinstance(f, ast.Attribute) and f.attr == 'tasks' and e.keywords: return c_query(eng, st, None, [], {}, e)          # self.tasks(key, **kwargs)
+                if isinstance(f, ast.Name) and f.id == '_ImmutableTaskList': return [(st, V(empty, LT))]
+                return ChildrenPlugin.call(self_, eng, e, st)
+
+        def inv(c):
+            h, g = hc(c), h0(c); i = c['_i0']; S_ = SEL(c); r = root(c)
+            d = {l_: v for l_, v in Inv(h).items() if l_ != U1}
+            d.update({'frame': And(h.root == g.root, h.tid == g.tid, h.chl == g.chl, c['tasks_to_delete'] == S_, i >= 0, i <= ln(S_), Not(c.st.ghost['attach_rejected']), c['self'] != W.null),
+                      'members-are-the-old-members-not-below-a-task-removed-so-far': ForAll([x], member(h, c, x) == And(member(g, c, x), Not(cov(S_, g.par, i, x))), patterns=[Desc(h.par, r, x)]),
+                      'removed-so-far-is-closed-downwards': ForAll([a_, x], Implies(And(cov(S_, g.par, i, a_), insub(g.par, a_, x)), cov(S_, g.par, i, x)), patterns=[MultiPattern(cov(S_, g.par, i, a_), Desc(g.par, a_, x))]),
+                      'selected-tasks-passed-are-removed': ForAll([x], Implies(And(mem(S_, x), idx(S_, x) < i), cov(S_, g.par, i, x)), patterns=[mem(S_, x)]),
+                      'ancestry-only-shrinks': ForAll([a_, x], Implies(Desc(h.par, a_, x), Desc(g.par, a_, x)), patterns=[Desc(h.par, a_, x)]),
+                      'ancestry-among-the-remaining-members-is-unchanged': ForAll([a_, x], Implies(And(Desc(g.par, a_, x), member(h, c, x), Or(a_ == r, member(h, c, a_))), Desc(h.par, a_, x)),
+                                                                                 patterns=[MultiPattern(Desc(g.par, a_, x), Desc(h.par, r, x))])})
+            return d
+        IL = LABS + ['frame', 'members-are-the-old-members-not-below-a-task-removed-so-far', 'removed-so-far-is-closed-downwards', 'selected-tasks-passed-are-removed', 'ancestry-only-shrinks', 'ancestry-among-the-remaining-members-is-unchanged']
+        fc = {'sig': {'self': W, 'key': ANY, 'kwargs': KWD}, 'locals': {'tasks_to_delete': LT}, 'ghost': {'attach_rejected': BOOL},
+              'requires': [(l_, (lambda l_: lambda c: Inv(hc(c))[l_])(l_)) for l_ in LABS] + [('wbs-non-null', lambda c: c['self'] != W.null), ('ghost-flag-starts-false', lambda c: Not(c.st.ghost['attach_rejected']))],
+              'loops': {0: {'fingerprint': 'for t in tasks_to_delete', 'havoc_heap': ['Task._Task__parent', 'Task._Task__wbs', 'PyList.elems'],
+                            'invariant': [('removal/' + l_, (lambda l_: lambda c: inv(c)[l_])(l_)) for l_ in IL]}},
+              'raises': {'RuntimeError': [('C15/only-a-removal-itself-may-be-refused', lambda c: c.st.ghost['attach_rejected'])]},
+              'ensures': [(l_, (lambda l_: lambda c: Inv(hc(c))[l_])(l_)) for l_ in LABS] +
+                         [('C18/returns-the-selected-tasks', lambda c: Or(c.result.e == SEL(c), And(ln(SEL(c)) == 0, ln(c.result.e) == 0)) if SEL(c) is not None else BoolVal(False)),
+                          ('C11,C18/members-afterwards-are-exactly-the-members-that-were-not-selected-and-not-below-a-selected-task',
+                           lambda c: ForAll([x], member(hc(c), c, x) == And(member(h0(c), c, x), Not(cov(SEL(c), h0(c).par, ln(SEL(c)), x))))),
+                          ('C18/no-selected-task-is-a-member-afterwards', lambda c: ForAll([x], Implies(mem(SEL(c), x), Not(member(hc(c), c, x)))))]}
+        contracts = {'WBS._WBS__remove': c_remove}
+        return Engine(FWBS, 'WBS.remove_all', contracts, TASK_CLASSES, fc, plugins=[RPlugin()]), LIST_AX + GRAPH_AX + COV_AX
+    return Unit('WBS.remove_all', FWBS, build, ['C11', 'C16', 'C18'], timeout_ms=15000)
+UNITS += [wbs_remove_all_unit()]
+
+
+def facade_remove_all_unit():
+    """_TaskList.remove_all on a children facade: every selected child is removed through _ChildrenList.remove (the receiver's own remove)"""
+    def build():
+        hc = lambda c: H(c.eng, c.st); h0 = lambda c: H(c.eng, c.pre)
+        fp = lambda c, w='cur': Select(c.fld('ChildrenFacade', '_ChildrenList__parent', w), c['self'])
+        fl = lambda c, w='cur': Select(c.fld('ChildrenFacade', '_list', w), c['self'])
+        SEL = lambda c: c.st.ghost.get('selection', c.pre.ghost.get('selection'))
+        L0 = lambda c: h0(c).ch(fp(c, 'pre'))
+
+        def c_query(eng, st, e):
+            h = H(eng, st); me = st.env['self'].e; S_ = fresh('selection', LT); ii = Int('ii')
+            L = h.elems[Select(eng.field(st, 'ChildrenFacade', '_list'), me)]
+            st.assume(And(ln(S_) >= 0, nodup(S_), ForAll([x], Implies(mem(S_, x), And(x != null, mem(L, x))), patterns=[mem(S_, x)]),
+                          ForAll([ii], Implies(And(0 <= ii, ii < ln(S_)), mem(S_, at(S_, ii))), patterns=[at(S_, ii)]),
+                          ForAll([a_, b_], Implies(And(mem(S_, a_), mem(S_, b_)), (idx(S_, a_) < idx(S_, b_)) == (idx(L, a_) < idx(L, b_))), patterns=[MultiPattern(idx(S_, a_), idx(S_, b_))])))
+            st.ghost['selection'] = S_
+            return [(st, V(S_, LT))]
+
+        class RPlugin(ChildrenPlugin):
+            def truth(self_, eng, st, v):
+                if v.s == LT: return ln(v.e) > 0
+                return NotImplemented
+
+            def call(self_, eng, e, st):
+                f = e.func
+                if isinstance(f, ast.Name) and f.id == 'self' and e.keywords: return c_query(eng, st, e)          # self(key, **kwargs): the query (proved: _ImmutableTaskList.__call__)
+                if isinstance(f, ast.Name) and f.id == '_ImmutableTaskList': return [(st, V(empty, LT))]
+                return ChildrenPlugin.call(self_, eng, e, st)
+
+        def inv(c):
+            h, g = hc(c), h0(c); i = c['_i0']; S_ = SEL(c); p = fp(c, 'pre'); C = L0(c)
+            d = {l_: v for l_, v in Inv(h).items() if l_ != U1}
+            d.update({'frame': And(h.root == g.root, h.tid == g.tid, h.chl == g.chl, c['tasks_to_delete'] == S_, i >= 0, i <= ln(S_), Not(c.st.ghost['attach_rejected']), c['self'] != FAC.null, p != null,
+                                   fp(c) == p, fl(c) == g.chl[p]),
+                      'children-left-are-the-old-ones-without-the-selected-tasks-passed': ForAll([x], mem(h.ch(p), x) == And(mem(C, x), Not(And(mem(S_, x), idx(S_, x) < i))), patterns=[mem(h.ch(p), x)]),
+                      'order-of-the-children-left-is-kept': ForAll([a_, b_], Implies(And(mem(h.ch(p), a_), mem(h.ch(p), b_)), (idx(h.ch(p), a_) < idx(h.ch(p), b_)) == (idx(C, a_) < idx(C, b_))),
+                                                                   patterns=[MultiPattern(idx(h.ch(p), a_), idx(h.ch(p), b_))]),
+                      'tasks-removed-so-far-are-detached': ForAll([x], Implies(And(mem(S_, x), idx(S_, x) < i), And(h.par[x] == null, h.own[x] == W.null)), patterns=[mem(S_, x)]),
+                      'parents-of-the-other-tasks-unchanged': ForAll([x], Implies(Not(And(mem(S_, x), idx(S_, x) < i)), h.par[x] == g.par[x]), patterns=[h.par[x]])})
+            return d
+        IL = LABS + ['frame', 'children-left-are-the-old-ones-without-the-selected-tasks-passed', 'order-of-the-children-left-is-kept', 'tasks-removed-so-far-are-detached', 'parents-of-the-other-tasks-unchanged']
+        fc = {'sig': {'self': FAC, 'key': ANY, 'kwargs': KWD}, 'locals': {'tasks_to_delete': LT}, 'ghost': {'attach_rejected': BOOL},
+              'requires': [(l_, (lambda l_: lambda c: Inv(hc(c))[l_])(l_)) for l_ in LABS] +
+                          [('facade-of-a-task-reading-its-current-children-list', lambda c: And(c['self'] != FAC.null, fp(c) != null, fl(c) == hc(c).chl[fp(c)])),
+                           ('ghost-flag-starts-false', lambda c: Not(c.st.ghost['attach_rejected']))],
+              'loops': {0: {'fingerprint': 'for t in tasks_to_delete', 'havoc_heap': ['Task._Task__parent', 'Task._Task__wbs', 'PyList.elems'],
+                            'invariant': [('removal/' + l_, (lambda l_: lambda c: inv(c)[l_])(l_)) for l_ in IL]}},
+              'raises': {'RuntimeError': [('C15/only-a-removal-itself-may-be-refused', lambda c: c.st.ghost['attach_rejected'])]},
+              'ensures': [(l_, (lambda l_: lambda c: Inv(hc(c))[l_])(l_)) for l_ in LABS] +
+                         [('C18/returns-the-selected-tasks', lambda c: Or(c.result.e == SEL(c), And(ln(SEL(c)) == 0, ln(c.result.e) == 0))),
+                          ('C18/children-afterwards-are-exactly-the-children-that-were-not-selected-order-kept', lambda c: And(
+                              ForAll([x], mem(hc(c).ch(fp(c, 'pre')), x) == And(mem(L0(c), x), Not(mem(SEL(c), x)))),
+                              ForAll([a_, b_], Implies(And(mem(hc(c).ch(fp(c, 'pre')), a_), mem(hc(c).ch(fp(c, 'pre')), b_)), (idx(hc(c).ch(fp(c, 'pre')), a_) < idx(hc(c).ch(fp(c, 'pre')), b_)) == (idx(L0(c), a_) < idx(L0(c), b_)))))),
+                          ('C11,C18/selected-tasks-are-detached', lambda c: ForAll([x], Implies(mem(SEL(c), x), And(hc(c).par[x] == null, hc(c).own[x] == W.null)))),
+                          ('C16,C18/parents-of-all-other-tasks-unchanged', lambda c: ForAll([x], Implies(Not(mem(SEL(c), x)), hc(c).par[x] == h0(c).par[x])))]}
+        return Engine(F, '_TaskList.remove_all', {'ChildrenFacade.remove': c_facade_remove}, FAC_CLASSES, fc, plugins=[RPlugin()]), LIST_AX + GRAPH_AX
+    return Unit('_TaskList.remove_all', F, build, ['C11', 'C16', 'C18'], timeout_ms=15000)
+UNITS += [facade_remove_all_unit()]
